@@ -12,13 +12,15 @@ CONSTANT Family
 VARIABLES hist, plan, pos, sub
 
 Rep(x, k) == [i \in 1..k |-> x]
-Call(e, ok, k) == [t |-> "call", e |-> e, ok |-> ok, k |-> k, d |-> 0]
-Adv(d) == [t |-> "adv", e |-> 0, ok |-> FALSE, k |-> "", d |-> d]
-Chk == [t |-> "check", e |-> 0, ok |-> FALSE, k |-> "", d |-> 0]
-Sel(e, k) == [t |-> "sel", e |-> e, ok |-> FALSE, k |-> k, d |-> 0]       \* the two halves of a call, so that a check can fall between them
-Done(ok) == [t |-> "done", e |-> 0, ok |-> ok, k |-> "", d |-> 0]
-Dn(e) == [t |-> "down", e |-> e, ok |-> FALSE, k |-> "", d |-> 0]      \* the server of e stops listening (Faults)
-Upt(e) == [t |-> "up", e |-> e, ok |-> FALSE, k |-> "", d |-> 0]       \* ... and listens again
+Call(e, ok, k) == [t |-> "call", e |-> e, ok |-> ok, k |-> k, d |-> 0, a |-> {}, i |-> {}, v |-> FALSE]
+Adv(d) == [t |-> "adv", e |-> 0, ok |-> FALSE, k |-> "", d |-> d, a |-> {}, i |-> {}, v |-> FALSE]
+Chk == [t |-> "check", e |-> 0, ok |-> FALSE, k |-> "", d |-> 0, a |-> {}, i |-> {}, v |-> FALSE]
+Sel(e, k) == [t |-> "sel", e |-> e, ok |-> FALSE, k |-> k, d |-> 0, a |-> {}, i |-> {}, v |-> FALSE]       \* the two halves of a call, so that a check can fall between them
+Done(ok) == [t |-> "done", e |-> 0, ok |-> ok, k |-> "", d |-> 0, a |-> {}, i |-> {}, v |-> FALSE]
+Dn(e) == [t |-> "down", e |-> e, ok |-> FALSE, k |-> "", d |-> 0, a |-> {}, i |-> {}, v |-> FALSE]      \* the server of e stops listening (Faults)
+Upt(e) == [t |-> "up", e |-> e, ok |-> FALSE, k |-> "", d |-> 0, a |-> {}, i |-> {}, v |-> FALSE]       \* ... and listens again
+Rf(A, I) == [t |-> "refresh", e |-> 0, ok |-> FALSE, k |-> "", d |-> 0, a |-> A, i |-> I, v |-> FALSE]
+Rfv(A, I, V) == [Rf(A, I) EXCEPT !.v = V]      \* ... V: with another weight / grid on the endpoints it names   \* the registry is asked again and answers (active A, inactive I)
 Wait(w) == Rep(Adv(30), w \div 30) \o Rep(Adv(5), (w % 30) \div 5)      \* w seconds, in the steps the model knows
 Oks(e, k) == Rep(Call(e, TRUE, "rr"), k)
 Fails(e, m) == Rep(Call(e, FALSE, "rr"), m)
@@ -77,8 +79,55 @@ F9 == { Oks(2, 1) \o Fails(1, s) \o <<Dn(1)>> \o Fails(1, 5 - s) \o Wait(5) \o <
 \*             5 s apart fail on it (each a sent and failed request); it comes back, 30 s, check, calls
 F10 == { Oks(1, 1) \o Oks(2, 1) \o <<Dn(1)>> \o RepSeq(Wait(5) \o <<Chk, Call(2, TRUE, "rr")>>, j) \o <<Upt(1)>> \o Wait(30)
          \o <<Chk, Call(1, TRUE, "rr"), Call(1, TRUE, "rr"), Chk>> : j \in {1, 2, 5, 6} }
+\* F11 (N = 3, the registry names 1 and 2 at first): m = 2 failures on endpoint 1, check: blocked; w1 s; the registry is asked
+\*             again and answers x1 -- the list gains / loses OTHER endpoints, is the same, names the same endpoints with another
+\*             weight, is empty, loses endpoint 1, moves it to the inactive list --; w2 s, check (a blocked endpoint still listed is admitted for its probe iff w1 + w2 >= 30: the
+\*             refresh did not touch its schedule); two calls (the first is the probe if one was admitted) ; the registry answers a2
+\*             (endpoint 1 comes back / the list shrinks again); a call for every endpoint; check
+X11 == { [a |-> {1, 2, 3}, i |-> {}, v |-> FALSE], [a |-> {1}, i |-> {}, v |-> FALSE], [a |-> {1, 3}, i |-> {2}, v |-> TRUE], [a |-> {1, 2}, i |-> {}, v |-> FALSE],
+         [a |-> {1, 2}, i |-> {}, v |-> TRUE], [a |-> {}, i |-> {}, v |-> FALSE], [a |-> {2}, i |-> {}, v |-> FALSE], [a |-> {2, 3}, i |-> {1}, v |-> FALSE],
+         [a |-> {3}, i |-> {}, v |-> TRUE] }
+F11 == { Oks(2, 1) \o Fails(1, m) \o <<Chk>> \o Wait(w1) \o <<Rfv(x1.a, x1.i, x1.v)>> \o Wait(w2) \o <<Chk, Call(2, TRUE, "rr"), Call(1, o1, "mod")>>
+         \o <<Rf(a2, {}), Call(1, TRUE, "rr"), Call(2, TRUE, "mod"), Call(3, TRUE, "ch"), Chk>>
+         : m \in {2}, w1 \in {0, 25}, w2 \in {0, 5}, x1 \in X11, a2 \in {{1, 2}, {1, 2, 3}}, o1 \in BOOLEAN }
+\* F12 (N = 3, the registry names 1 and 2 at first; Overlap): endpoint 1 is blocked and admitted for its probe; the registry is asked
+\*             again BETWEEN the admission and the probe call (x1) and again DURING the probe call (x2) -- an answer that withdraws
+\*             endpoint 1 at such a moment is not modelled and skipped --; the probe ends o1; calls; 30 s; check; calls
+X12 == { {1, 2, 3}, {1}, {1, 3}, {1, 2}, {} }
+F12 == { Fails(1, 2) \o <<Chk>> \o Wait(30) \o <<Chk, Rfv(x1, {}, x1 = {1, 2}), Sel(1, "rr"), Rfv(x2, {}, x2 = {1, 2}), Done(o1), Call(1, TRUE, "rr"), Call(2, TRUE, "mod"), Call(3, TRUE, "ch")>>
+         \o Wait(30) \o <<Chk, Call(1, TRUE, "rr"), Call(1, TRUE, "rr"), Chk>>
+         : x1 \in X12, x2 \in X12, o1 \in BOOLEAN }
+\* F13 (N = 2 or 3, the registry names 1 and 2): both endpoints are blocked (nothing is in rotation, calls fall back to the registry's
+\*             list); the registry's list shrinks to one endpoint / grows back: the fallback draws from the list as installed;
+\*             endpoint 2 is withdrawn while blocked and named again: it starts afresh
+F13 == { Fails(1, 2) \o Fails(2, 2) \o <<Chk>> \o <<Call(1, FALSE, "rr"), Call(2, FALSE, "mod"), Rf(a1, {})>>
+         \o <<Call(1, FALSE, "rr"), Call(2, FALSE, "ch"), Call(1, FALSE, "mod"), Rf({1, 2}, {})>> \o <<Call(1, TRUE, "rr"), Call(2, TRUE, "rr"), Call(2, TRUE, "mod")>>
+         \o Wait(30) \o <<Chk, Call(1, o1, "rr"), Call(2, TRUE, "rr"), Chk>>
+         : a1 \in {{1}, {2}, {}}, o1 \in BOOLEAN }
+\* F14 (N = 3, the registry names 1 and 2 at first; Stale = TRUE, the code as it is): endpoint 1 is blocked and admitted for its probe;
+\*             the registry WITHDRAWS it (x1: altogether -- its adapter is thrown away --, with endpoint 3 in its place, or to the
+\*             inactive list), possibly names it again at once (back); the next call is the probe admitted earlier and ends o1;
+\*             five failing calls (on endpoint 1 if it is in rotation), 5 s, check: an endpoint the registry does not name is not
+\*             visited; the registry's list changes again (a2): rotation is rebuilt from it; a call for every endpoint; check
+X14 == { [a |-> {2}, i |-> {}], [a |-> {2, 3}, i |-> {}], [a |-> {2}, i |-> {1}] }        \* (Rf: no attribute changes)
+F14 == { Fails(1, 2) \o <<Chk>> \o Wait(30) \o <<Chk, Rf(x1.a, x1.i)>> \o back \o <<Call(2, o1, "rr")>> \o Fails(1, 5) \o Wait(5)
+         \o <<Chk, Call(2, TRUE, "mod"), Rf(a2, {}), Call(1, TRUE, "rr"), Call(2, TRUE, "mod"), Call(3, TRUE, "ch"), Chk>>
+         : x1 \in X14, back \in {<<>>, <<Rf({1, 2}, {})>>}, o1 \in BOOLEAN, a2 \in {{1, 2}, {2, 3}} }
+\* F15 (N = 2 or 3, the registry names 1 and 2): the endpoints' weight changes (v) before / after endpoint 1 is created / blocked; it is probed
+\*             and reinstated (addAliveEp takes the endpoint from the ADAPTER, which still carries the old weight), fails again five times,
+\*             5 s, check: out of rotation again; once more with the weight changing while it is back
+F15 == { pre \o Fails(1, 2) \o <<Chk>> \o mid \o Wait(30) \o <<Chk, Call(1, TRUE, "rr")>> \o post \o Fails(1, 5) \o Wait(5) \o <<Chk, Call(2, TRUE, "rr"), Call(1, TRUE, "mod")>>
+         \o Wait(30) \o <<Chk, Call(1, TRUE, "rr"), Call(1, TRUE, "rr"), Chk>>
+         : pre \in {<<>>, <<Rfv({1, 2}, {}, TRUE)>>}, mid \in {<<>>, <<Rfv({1, 2}, {}, TRUE)>>}, post \in {<<>>, <<Rfv({1, 2}, {}, TRUE)>>} }
+\* F16 (N = 3, the registry names 1 and 2 at first): endpoint 1 has an adapter (b: and is blocked) and goes to the inactive list (the adapter is
+\*             kept); an answer that changes NOTHING (z: empty, also "with another weight"; the same active list with another inactive
+\*             list) must not even clean the cache; the same active list once more, without the inactive list: still nothing; then with
+\*             another weight: the whole refresh runs, the adapter of endpoint 1 goes; endpoint 1 is named again: in rotation, afresh
+F16 == { (IF b THEN Fails(1, 2) \o <<Chk>> ELSE Oks(1, 1)) \o <<Rf({2}, {1}), z, Rf({2}, {}), Call(2, TRUE, "rr"), Rfv({2}, {}, TRUE), Rf({1, 2}, {}),
+           Call(1, TRUE, "rr"), Call(2, TRUE, "mod"), Chk>>
+         : b \in BOOLEAN, z \in {Rfv({}, {}, TRUE), Rfv({}, {1}, FALSE), Rf({2}, {1, 3}), Rf({2}, {3})} }
 \* families over the same constants are generated in one TLC run: "A+B"
-Plans == CASE Family = "F6" -> F6 [] Family = "F7" -> F7 [] Family = "F7+F10" -> F7 \cup F10 [] Family = "F8" -> F8 [] Family = "F8+F9" -> F8 \cup F9 [] Family = "F1+F2+F3" -> F1 \cup F2 \cup F3 [] Family = "F3+F4" -> F3 \cup F4 [] Family = "F1" -> F1 [] Family = "F2" -> F2 [] Family = "F3" -> F3 [] Family = "F4" -> F4 [] Family = "F5" -> F5
+Plans == CASE Family = "F14" -> F14 [] Family = "F16" -> F16 [] Family = "F11+F16" -> F11 \cup F16 [] Family = "F11+F13+F15+F16" -> F11 \cup F13 \cup F15 \cup F16 [] Family = "F15" -> F15 [] Family = "F13+F15" -> F13 \cup F15 [] Family = "F11" -> F11 [] Family = "F12" -> F12 [] Family = "F13" -> F13 [] Family = "F6" -> F6 [] Family = "F7" -> F7 [] Family = "F7+F10" -> F7 \cup F10 [] Family = "F8" -> F8 [] Family = "F8+F9" -> F8 \cup F9 [] Family = "F1+F2+F3" -> F1 \cup F2 \cup F3 [] Family = "F3+F4" -> F3 \cup F4 [] Family = "F1" -> F1 [] Family = "F2" -> F2 [] Family = "F3" -> F3 [] Family = "F4" -> F4 [] Family = "F5" -> F5
 
 AllTrue == [e \in Eps |-> TRUE]
 Tok == plan[pos]
@@ -107,6 +156,12 @@ PlanNext ==
      \/ /\ Tok.t \in {"down", "up"}
         /\ SetUp(Tok.e, Tok.t = "up") /\ hist' = Append(hist, StepRec(IF Tok.t = "up" THEN "Up" ELSE "Down", 0, Tok.e, "", FALSE, 0, <<>>))
         /\ sub' = 0 /\ pos' = pos + 1
+     \/ /\ Tok.t = "refresh"
+        /\ LET x == [a |-> Tok.a, i |-> Tok.i, v |-> Tok.v]
+           IN IF RefreshOK(x)
+              THEN Refresh(x) /\ hist' = Append(hist, RefreshRec(x))
+              ELSE UNCHANGED <<vars, hist>>            \* an answer the model does not follow (see RefreshOK): the token is skipped
+        /\ sub' = 0 /\ pos' = pos + 1
      \/ /\ Tok.t = "adv"
         /\ Advance(Tok.d) /\ hist' = Append(hist, StepRec("Advance", 0, 0, "", FALSE, Tok.d, <<>>))
         /\ sub' = 0 /\ pos' = pos + 1
@@ -115,5 +170,5 @@ PlanNext ==
         /\ sub' = 0 /\ pos' = pos + 1
 PlanInit == Init /\ hist = <<>> /\ plan \in Plans /\ pos = 1 /\ sub = 0
 PlanSpec == PlanInit /\ [][PlanNext]_<<vars, hist, plan, pos, sub>>
-Emit == pos <= Len(plan) \/ PrintT(ToJson([n |-> N, calls |-> 1, overlap |-> Overlap, keepalive |-> KeepAlive, plan |-> plan, steps |-> hist]))
+Emit == pos <= Len(plan) \/ PrintT(ToJson([n |-> N, reg0 |-> SetToSeq(Reg0), stale |-> Stale, calls |-> 1, overlap |-> Overlap, keepalive |-> KeepAlive, plan |-> plan, steps |-> hist]))
 ====
